@@ -2,47 +2,12 @@
   L3 → L2: `mkEdit_refines` — on the fragment without MultiSetEdit the ghost script and the final cost of the fresh
   machine `mkEdit o orc fp tp f t` are the script and the cost of L2's `edits o orc.assign fp tp f t`.
 -/
-import GtModel.Proofs.LazyRefB
+import GtModel.Proofs.LazyRefD
 
 namespace GtModel.Lazy
 open GtModel.EditMatrix (Cell Move middle trimLens located solve)
 
 attribute [-simp] List.getD_eq_getElem?_getD
-
-/-- lists of machines against lists of scripts, element-wise -/
-theorem refL {ι : Type} (a : Ghost) (l : List ι) (Mf : ι → M) (Sf : ι → Script) (h : ∀ x ∈ l, RefP a (Mf x) (Sf x)) :
-    scriptL a (l.map Mf) = toDL (l.map Sf) ∧ finL a (l.map Mf) = sumCosts (l.map Sf) := by
-  induction l with
-  | nil => exact ⟨rfl, rfl⟩
-  | cons x xs ih =>
-    have hx := h x (by simp)
-    obtain ⟨i1, i2⟩ := ih (fun y hy => h y (by simp [hy]))
-    exact ⟨by simp only [List.map_cons, scriptL, toDL, hx.scr, i1],
-      by simp only [List.map_cons, finL, sumCosts_cons, hx.fin, i2]⟩
-
-theorem tail_toD (l : List Script) (h : ∀ s ∈ l, s.subs = []) : l.map DScript.ofScript = toDL l := by
-  rw [toDL_eq_map]
-  apply List.map_congr_left
-  intro s hs
-  exact ofScript_eq_toD s (h s hs)
-
-theorem mkKvp_refines (a : Ghost) (fk tk : Str) (veq : Bool) (ve : M) (sc : Script) (h : RefP a ve sc) :
-    RefP a (mkKvp fk tk veq ve) (kvpScript fk tk veq sc) := by
-  have hk : RefP a (if fk == tk then mkConst .match_ 0 else mkStr fk tk) (if fk == tk then mkMatch 0 else strEdits fk tk) := by
-    split
-    · exact RefP.const a 0
-    · exact mkStr_refines a fk tk
-  have hv : RefP a (if veq then mkConst .match_ 0 else ve) (if veq then mkMatch 0 else sc) := by
-    split
-    · exact RefP.const a 0
-    · exact h
-  have hk' := hk.relabel (.at 0) (.at 0)
-  have hv' := hv.relabel (.at 1) (.at 1)
-  refine ⟨rfl, ?_, ?_⟩
-  · simp only [mkKvp, kvpScript, scriptG, mkCompound, toD, toDL, hk'.scr, hv'.scr, hk'.fin, hv'.fin, sumCosts_cons,
-      sumCosts_nil, Nat.add_zero]
-  · simp only [mkKvp, kvpScript, finG, mkCompound, Script.cost_mk, hk'.fin, hv'.fin, sumCosts_cons, sumCosts_nil,
-      Nat.add_zero]
 
 theorem leafEdits_subs (x : Scalar) (t : Tree) (hs : ¬ ∃ u v, x = .str u ∧ t = .leaf (.str v)) :
     (leafEdits x t).subs = [] := by
@@ -78,19 +43,31 @@ theorem mkLeaf_refines (a : Ghost) (x : Scalar) (t : Tree) : RefP a (mkLeaf x t)
 theorem getD_eq_getElem' {α : Type} (l : List α) (d : α) (i : Nat) (h : i < l.length) : l.getD i d = l[i] := by
   simp [List.getD_eq_getElem?_getD, h]
 
-/-- the main refinement -/
+theorem kvTbl_getD' (o : Opts) (orc : Oracle) (fp tp : List Nat) (fkv tkv : List (Str × Tree)) (i j : Nat) (d : Script) :
+    ((kvTbl o orc fp tp fkv tkv).getD i []).getD j d =
+      if i < fkv.length ∧ j < tkv.length then
+        edits o orc (fp ++ [i, 1]) (tp ++ [j, 1]) (fkv.getD i dkv).2 (tkv.getD j dkv).2
+      else d := by
+  by_cases hi : i < fkv.length
+  · by_cases hj : j < tkv.length
+    · simp [kvTbl, List.getD_eq_getElem?_getD, hi, hj]
+    · have : tkv.length ≤ j := by omega
+      simp [kvTbl, List.getD_eq_getElem?_getD, hi, hj, this]
+  · have : fkv.length ≤ i := by omega
+    simp [kvTbl, List.getD_eq_getElem?_getD, hi, this]
+
+/-- the main refinement: for EVERY pair of trees the fresh machine refines L2's `edits` -/
 theorem mkEdit_refines (a : Ghost) (o : Opts) (orc : Orc) :
-    ∀ f : Tree, f.noDict = true → ∀ (t : Tree) (fp tp : List Nat),
+    ∀ (f t : Tree) (fp tp : List Nat),
       RefP a (mkEdit o orc fp tp f t) (edits o orc.assign fp tp f t) := by
   intro f
   induction f using Tree.ind with
   | leaf x =>
-    intro _ t fp tp
+    intro t fp tp
     rw [mkEdit_leaf, edits_leaf]
     exact mkLeaf_refines a x t
   | list fcs ih =>
-    intro hnd t fp tp
-    have hnd' := (ndL_iff fcs).mp (by simpa [Tree.noDict] using hnd)
+    intro t fp tp
     cases t with
     | list tcs =>
       rw [mkEdit_list_list, edits_list_list]
@@ -111,7 +88,7 @@ theorem mkEdit_refines (a : Ghost) (o : Opts) (orc : Orc) :
               have h2 : i < tcs.length := by omega
               rw [listTbl_getD _ _ _ _ _ _ _ _ _ h1 h2, ← getD_eq_getElem' fcs dT i h1, ← getD_eq_getElem' tcs dT i h2]
               have m1 := getD_mem fcs dT i h1
-              exact (ih _ m1 (hnd' _ m1) _ _ _).relabel _ _)
+              exact (ih _ m1 _ _ _).relabel _ _)
           have htail : (fixedTail fcs tcs).map DScript.ofScript = toDL (fixedTail fcs tcs) := by
             apply tail_toD
             intro s hs
@@ -151,7 +128,7 @@ theorem mkEdit_refines (a : Ghost) (o : Opts) (orc : Orc) :
               have m1 := getD_mem fcs dT _ h1
               simp only [edCell]
               rw [middle_getD dT tcs _ r (by omega)]
-              exact (ih _ m1 (hnd' _ m1) _ _ _).relabel _ _
+              exact (ih _ m1 _ _ _).relabel _ _
             have hfm : finLL a (edCells o orc fp tp fcs tcs) =
                 (List.range (middle tcs (trimLens fcs tcs)).length).map fun r =>
                   (List.range (middle fcs (trimLens fcs tcs)).length).map fun c =>
@@ -208,12 +185,32 @@ theorem mkEdit_refines (a : Ghost) (o : Opts) (orc : Orc) :
     | fdict kvs =>
       rw [mkEdit_list_other _ _ _ _ _ _ (by intro _ h; cases h), edits_list_other _ _ _ _ _ _ (by intro _ h; cases h)]
       exact RefP.ofLeaf a _ rfl
-  | dict kvs _ =>
-    intro hnd
-    simp [Tree.noDict] at hnd
+  | dict fkv ih =>
+    intro t fp tp
+    cases t with
+    | dict tkv =>
+      rw [mkEdit_dict_dict, edits_dict_dict]
+      split
+      · exact RefP.const a 0
+      · apply mkMs_refines
+        intro i j
+        rw [kvTblM_getD, kvTbl_getD']
+        split
+        · rename_i h
+          have m1 := getD_mem fkv dkv i h.1
+          exact ih _ m1 _ _ _
+        · exact RefP.const a 0
+    | leaf y =>
+      rw [mkEdit_dict_other _ _ _ _ _ _ (by intro _ h; cases h), edits_dict_other _ _ _ _ _ _ (by intro _ h; cases h)]
+      exact RefP.ofLeaf a _ rfl
+    | list cs =>
+      rw [mkEdit_dict_other _ _ _ _ _ _ (by intro _ h; cases h), edits_dict_other _ _ _ _ _ _ (by intro _ h; cases h)]
+      exact RefP.ofLeaf a _ rfl
+    | fdict kvs =>
+      rw [mkEdit_dict_other _ _ _ _ _ _ (by intro _ h; cases h), edits_dict_other _ _ _ _ _ _ (by intro _ h; cases h)]
+      exact RefP.ofLeaf a _ rfl
   | fdict fkv ih =>
-    intro hnd t fp tp
-    have hnd' := (ndKV_iff fkv).mp (by simpa [Tree.noDict] using hnd)
+    intro t fp tp
     cases t with
     | fdict tkv =>
       rw [mkEdit_fdict_fdict, edits_fdict_fdict]
@@ -227,7 +224,7 @@ theorem mkEdit_refines (a : Ghost) (o : Opts) (orc : Orc) :
           rw [kvTblM_getD, if_pos ⟨h1, h2⟩, kvTbl_getD _ _ _ _ _ _ _ _ _ h1 h2,
             ← getD_eq_getElem' fkv dkv i h1, ← getD_eq_getElem' tkv dkv j h2]
           have m1 := getD_mem fkv dkv i h1
-          exact ih _ m1 (hnd' _ m1) _ _ _
+          exact ih _ m1 _ _ _
         have k1 := refL a ((List.range fkv.length).filter fun i => (findKey (fkv.getD i dkv).1 tkv 0).isSome)
           (sharedM fkv tkv (kvTblM o orc fp tp fkv tkv))
           (fun i =>
